@@ -116,7 +116,7 @@ func (w *world) tokOfValue(v interface{}) int {
 		}
 		return -3
 	case nil:
-		return 5 // the nil value
+		return 90 // the nil value
 	}
 	return -2
 }
@@ -125,7 +125,7 @@ func (w *world) valueOfTok(t int) reflect.Value {
 	if t >= 100 {
 		return reflect.ValueOf(w.hs[t-100-1])
 	}
-	if t == 5 { // the nil value, handed over as the reflect.Value of nil (the zero Value)
+	if t == 90 { // the nil value, handed over as the reflect.Value of nil (the zero Value)
 		return reflect.ValueOf(nil)
 	}
 	if t == 3 { // the addressable value
@@ -153,26 +153,26 @@ func (w *world) do(c Call) (res Res) {
 	e := w.hs[c.H-1]
 	switch c.Op {
 	case "Define":
-		if c.V == 5 && c.H%2 == 1 {
+		if c.V == 90 && c.H%2 == 1 {
 			return errRes(e.Define(c.N, nil))
 		}
-		if c.V == 3 || c.V == 5 || c.V >= 100 && c.V%2 == 0 {
+		if c.V == 3 || c.V == 90 || c.V >= 100 && c.V%2 == 0 {
 			return errRes(e.DefineValue(c.N, w.valueOfTok(c.V)))
 		}
 		return errRes(e.Define(c.N, w.valueOfTok(c.V).Interface()))
 	case "DefineGlobal":
-		if c.V == 5 && c.H%2 == 1 {
+		if c.V == 90 && c.H%2 == 1 {
 			return errRes(e.DefineGlobal(c.N, nil))
 		}
-		if c.V == 3 || c.V == 5 || c.V >= 100 && c.V%2 == 0 {
+		if c.V == 3 || c.V == 90 || c.V >= 100 && c.V%2 == 0 {
 			return errRes(e.DefineGlobalValue(c.N, w.valueOfTok(c.V)))
 		}
 		return errRes(e.DefineGlobal(c.N, w.valueOfTok(c.V).Interface()))
 	case "Set":
-		if c.V == 5 && c.H%2 == 1 {
+		if c.V == 90 && c.H%2 == 1 {
 			return errRes(e.Set(c.N, nil))
 		}
-		if c.V == 3 || c.V == 5 || c.V%2 == 0 {
+		if c.V == 3 || c.V == 90 || c.V%2 == 0 {
 			return errRes(e.SetValue(c.N, w.valueOfTok(c.V)))
 		}
 		return errRes(e.Set(c.N, w.valueOfTok(c.V).Interface()))
@@ -495,8 +495,14 @@ func random(seed int64, ntraces, length int, outPath string) {
 				} else {
 					c.V = 1 + rng.Intn(5)
 				}
+				if rng.Intn(8) == 0 {
+					c.V = 90
+				}
 			case "Set":
 				c.V = 1 + rng.Intn(5)
+				if rng.Intn(8) == 0 {
+					c.V = 90
+				}
 			case "DefineType", "DefineGlobalType":
 				c.V = tvals[rng.Intn(len(tvals))]
 			case "SetExt":
